@@ -62,7 +62,7 @@ def teardown(ctx):
 def generate(ctx):
     cells = gen.all_cells()
     idx = 0
-    reps = ctx.scale(3, 16)
+    reps = ctx.scale(3, 12)
     for rep in range(reps):
         for t, vc in cells:
             if vc == "extreme" and rep > 0:
@@ -71,7 +71,7 @@ def generate(ctx):
             if ctx.mine(idx):
                 yield {"k": "cell", "t": t, "vc": vc, "via": via, "s": subseed("c01", ctx.seed, "cell", t, vc, rep)}
             idx += 1
-    nmix = ctx.scale(150, 3500)
+    nmix = ctx.scale(150, 2500)
     for i in range(nmix):
         yield {"k": "mix", "via": VIAS[i % len(VIAS)], "s": subseed("c01", ctx.seed, "mix", ctx.shard, i)}
     # identifier-coincident types interleaved in one stream; frames above 1 MiB through every access path
